@@ -485,8 +485,10 @@ func (fv *FV) modelForName(st *State, ins ssa.CallInstruction, v ssa.Value, call
 	fv.assume(st, eq(eq(res, "0"), fmt.Sprintf("(forall ((%s Int)) %s)", q, implies(inRange(q), not(eq(fv.read(st, nf, elem(q)), name))))))
 	w := fv.freshConst("fornameidx", "Int")
 	fv.assume(st, implies(not(eq(res, "0")), and(inRange(w), eq(elem(w), res), eq(fv.read(st, nf, res), name))))
+	q2 := fv.fresh("q!i")
+	fv.assume(st, implies(not(eq(res, "0")), fmt.Sprintf("(forall ((%s Int)) %s)", q2, implies(and(sx("<=", "0", q2), sx("<", q2, w)), not(eq(fv.read(st, nf, elem(q2)), name))))))
 	fv.setVal(v, res)
-	fv.used("gqlparser XList.ForName(name): nil iff no element has that Name, else an element of the list with that Name")
+	fv.used("gqlparser XList.ForName(name): nil iff no element has that Name, else the first element of the list with that Name")
 	return true
 }
 
